@@ -1241,7 +1241,8 @@ func (p *Printer) command(cmd Command, redirs []*Redirect) (startRedirs int) {
 			p.wantSpace = spaceRequired
 			// Add a space between nested parentheses if we're printing them in a single line,
 			// to avoid the ambiguity between `((` and `( (`.
-			if (cmd.Lparen.Line() != stmts[0].Pos().Line() || len(stmts) > 1) && !p.singleLine {
+			if (cmd.Lparen.Line() != stmts[0].Pos().Line() || len(stmts) > 1 ||
+				stmtsEnd(stmts, cmd.Last).Line() < cmd.Rparen.Line()) && !p.singleLine {
 				p.wantSpace = spaceNotRequired
 
 				if p.minify {
